@@ -504,7 +504,11 @@ def _all_members(mod, cls):
     return [M.enc_member(m) for m in E]
 
 
-V_ENUMX = [None, 0, 1, 12345678, -1, True, "x", "ctr", 1.5, {"t": "list", "v": [1]}]
+# ... and members of OTHER XML-mapped enumerations: whatever the setter makes of them, what it writes must be a token
+# of the attribute's own type
+V_ENUMX = [None, 0, 1, 12345678, -1, True, "x", "ctr", 1.5, {"t": "list", "v": [1]},
+           Mb("text", "MSO_VERTICAL_ANCHOR", "TOP"), Mb("dml", "MSO_LINE_DASH_STYLE", "DASH"),
+           Mb("text", "MSO_TEXT_UNDERLINE_TYPE", "WAVY_LINE"), Mb("text", "PP_PARAGRAPH_ALIGNMENT", "RIGHT")]
 
 # name -> (context, attr, values, metric, pre values); metric: exact | truthy | ("abs", q) | ("angle", q) | skip
 API_OPS = collections.OrderedDict()
@@ -855,11 +859,15 @@ def _api_same(metric, v, back):
             name = getattr(v, "name", None)
             if name is None and not isinstance(v, bool):
                 return back == v   # a plain integer that the enumeration accepts: any equal reading will do
+            if name is not None and type(v).__name__ != "MSO_TEXT_UNDERLINE_TYPE":
+                return int(back) == int(v)   # a member of another enumeration, taken by its integer value
             exp = True if (v is True or name == "SINGLE_LINE") else False if (v is False or name == "NONE") else v
             return type(back) is type(exp) and back == exp
         if metric == "exact":
             if hasattr(v, "xml_value") and hasattr(back, "xml_value") and type(back) is not type(v):
-                return False   # a member of another enumeration that happens to have the same integer value
+                # a member of another enumeration was assigned and taken by its integer value: the reading is the
+                # attribute's own member of that value (what was written is judged by the token check above)
+                return int(back) == int(v)
             if back == v:
                 return True
             if isinstance(v, (int, float)) and isinstance(back, (int, float)):
